@@ -90,12 +90,19 @@ SourceColumn(d, s) ==
       [] d.kind = "lookup"   -> [i \in 1..NCells(s) |-> PosValue(PosOfId(i - 1, s), d.k)]
       [] d.kind = "constant" -> [i \in 1..NCells(s) |-> d.k]
       [] d.kind = "list"     -> d.vals
+      \* d.kind = "halve": see AddHalved
 
 AddCellComponent(n, d) ==
     /\ (d.kind = "list" => Len(d.vals) = NCells(shape))
     /\ cols' = Ext(cols, n, SourceColumn(d, shape))
     /\ src' = Ext(src, n, d)
     /\ UNCHANGED <<shape, dev>>
+
+\* re-adding a component with a generator that reads the component's own current values: every cell gets half its old value
+AddHalved(n) ==
+    /\ n \in DOMAIN cols
+    /\ cols' = [cols EXCEPT ![n] = [i \in 1..Len(@) |-> @[i] \div 2]]
+    /\ UNCHANGED <<shape, src, dev>>
 
 \* finding F4: the bundled LookupGenerator is always called with 3-tuples, so a table of the world's
 \* dimensionality (1 for a line, 2 for a 2-D grid) raises; nothing changes
